@@ -1105,8 +1105,7 @@ matrix on the two in-plane components found through `_r_dim_mapping`); it is tie
 by the correspondence run like the operators.  The theorems are `_partial`: one quarter turn
 (other `k` iterate it), fully valid fields, and the hypothesis `periodic f a = periodic f b`
 — without it the claim is FALSE of the code (`Mesh.rotate90` keeps `bc`, candidate finding
-D22); the vector Laplacian is excluded for non-positional mappings by candidate finding D21;
-the curl is checked by the oracle only. -/
+D22); the vector Laplacian is excluded for non-positional mappings by candidate finding D21. -/
 
 /-- **The scalar Laplacian commutes with a quarter turn** (`_partial`: one quarter turn `k = 1`
 about the region centre — other `k` are iterates; fully valid fields; the two axes of the
@@ -1301,6 +1300,121 @@ theorem div_rot90_partial (f R Dv DR RD : Fld) (a b v1 v2 : Nat) (vs : List Stri
         (fun i' => by rw [hcomp c i']; simp [hc1, hc2])]
       ring
 
+/-- **The curl commutes with a quarter turn** (`_partial`: `k = 1`, fully valid field whose
+three stored components are paired one-to-one with the three axes (`ρ`), the two axes of the
+plane both open or both periodic).  `curl(rotate90(v)) = rotate90(curl(v))`, component by
+component at every cell, for each of the six ordered pairs of axes. -/
+theorem curl_rot90_partial (f R C CR RC : Fld) (a b : Nat) (vs : List String) (ρ : Nat → Nat)
+    (wf : MeshWf f) (hf : FullyValid f) (ha : a < 3) (hb : b < 3) (hab : a ≠ b)
+    (hper : periodic f a = periodic f b)
+    (hv : f.vdims = some vs) (hvl : vs.length = f.nvdim) (hvd : hasDup vs = false)
+    (hraw : ∀ i, (f.data.get i).length = f.nvdim) (hmap : 0 < f.vmap.length)
+    (hρ : ∀ d, d < 3 → ρ d < 3 ∧ rDimLast f (f.mesh.region.dims.getD d "") = some (vs.getD (ρ d) ""))
+    (hinj : ρ 0 ≠ ρ 1 ∧ ρ 0 ≠ ρ 2 ∧ ρ 1 ≠ ρ 2)
+    (hR : rot90Fld f (f.mesh.region.dims.getD a "") (f.mesh.region.dims.getD b "") = .ok R)
+    (hC : curl f = .ok C) (hCR : curl R = .ok CR)
+    (hRC : rot90Fld C (C.mesh.region.dims.getD a "") (C.mesh.region.dims.getD b "") = .ok RC) :
+    ∀ i, InMesh R i → ∀ k, k < 3 → (CR.data.get i).getD k 0 = (RC.data.get i).getD k 0 := by
+  obtain ⟨hn3, hnd, c3, c4, _, c6⟩ := curl_eq f C vs ρ wf.dims hv hvl hvd hρ hC
+  have ha' : a < f.mesh.ndim := by omega
+  have hb' : b < f.mesh.ndim := by omega
+  have hl : ∀ d, d < 3 → ρ d < vs.length := fun d hd => by rw [hvl, hn3]; exact (hρ d hd).1
+  have hpair : ∀ d, d < 3 → (rDimLast f (f.mesh.region.dims.getD d "")).bind f.vdimIndex = some (ρ d) := by
+    intro d hd
+    rw [(hρ d hd).2]
+    simp only [Option.bind_some]
+    exact vdimIndex_getD f vs hv hvd (ρ d) (hl d hd)
+  obtain ⟨q1, q2, q3, q4, q5⟩ := rot90Fld_vector_meta f R a b vs wf.dims (by omega) hv hvl ha' hb' hmap hR
+  have hr := isRot90_of_mesh f R a b wf ha' hb' hab q5 q4 q3
+  have hRd := rot90Fld_vector_data f R a b (ρ a) (ρ b) wf.dims wf.data_shape (by omega) ha' hb' (hpair a ha) (hpair b hb) hR
+  have hRdims : DimsOk R := by unfold DimsOk; rw [hr.dims, hr.ndim]; exact wf.dims
+  have hρR : ∀ d, d < 3 → ρ d < 3 ∧ rDimLast R (R.mesh.region.dims.getD d "") = some (vs.getD (ρ d) "") := by
+    intro d hd
+    refine ⟨(hρ d hd).1, ?_⟩
+    have := (hρ d hd).2
+    unfold rDimLast at this ⊢
+    rw [q2, hr.dims]; exact this
+  obtain ⟨_, _, _, _, _, r6⟩ := curl_eq R CR vs ρ hRdims q1 (by rw [hvl, q3]) hvd hρR hCR
+  -- the curl of f: positional labels and mapping, so the turn exchanges its components a and b
+  obtain ⟨x, y, z, hxyz, _, _, _⟩ := dims3 f wf.dims hnd
+  obtain ⟨m1, m2⟩ := curl_meta f C hC
+  rw [posVdims3] at m1
+  have hCd : DimsOk C := by unfold DimsOk; rw [c4]; exact wf.dims
+  have hvm : C.vmap = List.zip ["x", "y", "z"] C.mesh.region.dims := by
+    rw [m2, posVmap3 f.mesh x y z hxyz (by unfold Mesh.ndim at hnd; exact hnd), c4, hxyz]; rfl
+  have hpairC : ∀ d, d < 3 → (rDimLast C (C.mesh.region.dims.getD d "")).bind C.vdimIndex = some d :=
+    fun d hd => pos_pairing C ["x", "y", "z"] m1 hvm (by decide) hCd.2 (by rw [hCd.1, c4, hnd]; rfl) d hd
+  obtain ⟨cs, clen⟩ := curl_shape_len hC
+  have hRCd := rot90Fld_vector_data C RC a b a b hCd (by rw [cs, c4]; exact wf.data_shape) (by rw [c3]; omega)
+    (by rw [c4]; exact ha') (by rw [c4]; exact hb') (hpairC a ha) (hpairC b hb) hRC
+  intro i hi k hk
+  obtain ⟨hlen, hin⟩ := hi
+  rw [hr.ndim] at hlen hin
+  have hra := (hρ a ha).1
+  have hrb := (hρ b hb).1
+  have hρab : ρ a ≠ ρ b := by
+    obtain ⟨h01, h02, h12⟩ := hinj
+    have : (a = 0 ∨ a = 1 ∨ a = 2) ∧ (b = 0 ∨ b = 1 ∨ b = 2) := by omega
+    rcases this with ⟨rfl | rfl | rfl, rfl | rfl | rfl⟩ <;> first | exact absurd rfl hab | assumption | exact Ne.symm ‹_›
+  have hcomp : ∀ c i', (R.data.get i').getD c 0
+      = if c = ρ a then -((f.data.get (rotIdx f a b i')).getD (ρ b) 0)
+        else if c = ρ b then (f.data.get (rotIdx f a b i')).getD (ρ a) 0 else (f.data.get (rotIdx f a b i')).getD c 0 := by
+    intro c i'
+    rw [hRd i', turnVec_getD _ (ρ a) (ρ b) c hρab (by rw [hraw, hn3]; exact hra) (by rw [hraw, hn3]; exact hrb)]
+  -- derivative of component `c` of the turned field along axis `x`, in one formula
+  have DR : ∀ x c, x < 3 → D R x 1 c i
+      = (if x = a then -1 else 1) * (if c = ρ a then -1 else 1)
+        * D f (if x = a then b else if x = b then a else x) 1
+            (if c = ρ a then ρ b else if c = ρ b then ρ a else c) (rotIdx f a b i) := by
+    intro x c hx
+    have hdata : ∀ i', (R.data.get i').getD c 0 = (if c = ρ a then -1 else 1)
+        * (f.data.get (rotIdx f a b i')).getD (if c = ρ a then ρ b else if c = ρ b then ρ a else c) 0 := by
+      intro i'
+      rw [hcomp c i']
+      by_cases h1 : c = ρ a
+      · simp [h1]
+      · by_cases h2 : c = ρ b
+        · subst h2; simp [Ne.symm hρab]
+        · simp [h1, h2]
+    have ia := hin a ha'
+    have ib := hin b hb'
+    rw [hr.n_a] at ia
+    rw [hr.n_b] at ib
+    by_cases hxa : x = a
+    · subst hxa
+      simp only [if_true]
+      rw [D_rot_a f R x b c _ 1 _ i hr hf (Or.inl rfl) hab (by rw [hlen]; exact ha') (by rw [hlen]; exact hb') hper ia hdata]
+      simp [revSign]
+    · by_cases hxb : x = b
+      · subst hxb
+        simp only [hxa, if_false, if_true]
+        rw [D_rot_b f R a x c _ 1 _ i hr hf (Or.inl rfl) hab (by rw [hlen]; exact ha') (by rw [hlen]; exact hb') hper ib hdata]
+        ring
+      · simp only [hxa, hxb, if_false]
+        have ie := hin x (by omega)
+        rw [hr.n_e x hxa hxb] at ie
+        rw [D_rot_e f R a b x c _ 1 _ i hr hf (Or.inl rfl) hxa hxb ie hdata]
+        ring
+  obtain ⟨e0, e1, e2⟩ := r6 i
+  obtain ⟨f0, f1, f2⟩ := c6 (rotIdx f a b i)
+  obtain ⟨h01, h02, h12⟩ := hinj
+  have h10 := Ne.symm h01
+  have h20 := Ne.symm h02
+  have h21 := Ne.symm h12
+  rw [hRCd i, rotIdx_congr f C a b i c4,
+    turnVec_getD _ a b k hab (by rw [clen, c3]; exact ha) (by rw [clen, c3]; exact hb)]
+  have hcases : (a = 0 ∧ b = 1) ∨ (a = 1 ∧ b = 0) ∨ (a = 0 ∧ b = 2) ∨ (a = 2 ∧ b = 0) ∨ (a = 1 ∧ b = 2) ∨ (a = 2 ∧ b = 1) := by
+    omega
+  have hk3 : k = 0 ∨ k = 1 ∨ k = 2 := by omega
+  rcases hcases with ⟨rfl, rfl⟩ | ⟨rfl, rfl⟩ | ⟨rfl, rfl⟩ | ⟨rfl, rfl⟩ | ⟨rfl, rfl⟩ | ⟨rfl, rfl⟩ <;>
+    rcases hk3 with rfl | rfl | rfl <;>
+    simp only [e0, e1, e2, f0, f1, f2, DR _ _ (by omega : (0:Nat) < 3), DR _ _ (by omega : (1:Nat) < 3),
+      DR _ _ (by omega : (2:Nat) < 3), h01, h02, h12, h10, h20, h21, if_true, if_false,
+      show (0:Nat) ≠ 1 by omega, show (0:Nat) ≠ 2 by omega, show (1:Nat) ≠ 0 by omega, show (1:Nat) ≠ 2 by omega,
+      show (2:Nat) ≠ 0 by omega, show (2:Nat) ≠ 1 by omega, ne_eq, not_false_eq_true, not_true_eq_false,
+      OfNat.ofNat_ne_zero, OfNat.zero_ne_ofNat, OfNat.one_ne_ofNat, OfNat.ofNat_ne_one] <;>
+    ring
+
 /-- the four fields `laplace_rot90_partial` speaks about exist for every plain scalar field on a
 well-formed mesh without subregions -/
 theorem laplace_rot90_defined (f : Fld) (a b : Nat) (wf : MeshWf f) (hsub : f.mesh.subs = []) (hp : Plain f)
@@ -1396,6 +1510,63 @@ theorem div_rot90_defined (f : Fld) (a b v1 v2 : Nat) (vs : List String) (σ : N
     (by rw [d3]; exact ha) (by rw [d3]; exact hb) hab
   exact ⟨R, Dv, DR, RD, hR, hD, hDR, hRD⟩
 
+/-- … and the four fields of `curl_rot90_partial` -/
+theorem curl_rot90_defined (f : Fld) (a b : Nat) (vs : List String) (σ ρ : Nat → Nat)
+    (wf : MeshWf f) (hsub : f.mesh.subs = []) (ha : a < 3) (hb : b < 3) (hab : a ≠ b)
+    (hn : f.nvdim = 3) (hnd : f.mesh.ndim = 3)
+    (hv : f.vdims = some vs) (hvl : vs.length = f.nvdim) (hvd : hasDup vs = false)
+    (hkeys : (f.vmap.map (·.1)).isPerm vs = true)
+    (hσ : ∀ c, c < 3 → σ c < 3 ∧ Fld.lookup f.vmap (vs.getD c "") = some (f.mesh.region.dims.getD (σ c) ""))
+    (hρ : ∀ d, d < 3 → ρ d < 3 ∧ rDimLast f (f.mesh.region.dims.getD d "") = some (vs.getD (ρ d) "")) :
+    ∃ R C CR RC, rot90Fld f (f.mesh.region.dims.getD a "") (f.mesh.region.dims.getD b "") = .ok R ∧
+      curl f = .ok C ∧ curl R = .ok CR ∧
+      rot90Fld C (C.mesh.region.dims.getD a "") (C.mesh.region.dims.getD b "") = .ok RC := by
+  have ha' : a < f.mesh.ndim := by omega
+  have hb' : b < f.mesh.ndim := by omega
+  have hmap : 0 < f.vmap.length := by
+    have := (hσ 0 (by omega)).2
+    cases hq : f.vmap with
+    | nil => rw [hq] at this; simp [Fld.lookup] at this
+    | cons _ _ => simp
+  have hl : ∀ d, d < 3 → ρ d < vs.length := fun d hd => by rw [hvl, hn]; exact (hρ d hd).1
+  have hpair : ∀ d, d < 3 → (rDimLast f (f.mesh.region.dims.getD d "")).bind f.vdimIndex = some (ρ d) := by
+    intro d hd
+    rw [(hρ d hd).2]
+    simp only [Option.bind_some]
+    exact vdimIndex_getD f vs hv hvd (ρ d) (hl d hd)
+  obtain ⟨R, hR⟩ := rot90_accepts_vector f a b (ρ a) (ρ b) vs wf hsub (by omega) hv hvl hvd hkeys hmap ha' hb' hab
+    (hpair a ha) (hpair b hb)
+  obtain ⟨C, hC⟩ := curl_accepts f vs σ ρ wf.dims hn hnd hv hvl hvd hσ hρ
+  obtain ⟨q1, q2, q3, q4, q5⟩ := rot90Fld_vector_meta f R a b vs wf.dims (by omega) hv hvl ha' hb' hmap hR
+  have hr := isRot90_of_mesh f R a b wf ha' hb' hab q5 q4 q3
+  have hRd : DimsOk R := by unfold DimsOk; rw [hr.dims, hr.ndim]; exact wf.dims
+  obtain ⟨CR, hCR⟩ := curl_accepts R vs σ ρ hRd (by rw [q3, hn]) (by rw [hr.ndim, hnd]) q1 (by rw [hvl, q3]) hvd
+    (by intro c hc; rw [q2, hr.dims]; exact hσ c hc)
+    (by
+      intro d hd
+      refine ⟨(hρ d hd).1, ?_⟩
+      have := (hρ d hd).2
+      unfold rDimLast at this ⊢
+      rw [q2, hr.dims]; exact this)
+  obtain ⟨_, _, c3, c4, _, _⟩ := curl_eq f C vs ρ wf.dims hv hvl hvd hρ hC
+  obtain ⟨x, y, z, hxyz, _, _, _⟩ := dims3 f wf.dims hnd
+  obtain ⟨m1, m2⟩ := curl_meta f C hC
+  rw [posVdims3] at m1
+  have hCd : DimsOk C := by unfold DimsOk; rw [c4]; exact wf.dims
+  have hvm : C.vmap = List.zip ["x", "y", "z"] C.mesh.region.dims := by
+    rw [m2, posVmap3 f.mesh x y z hxyz (by unfold Mesh.ndim at hnd; exact hnd), c4, hxyz]; rfl
+  have hll : (["x", "y", "z"] : List String).length = C.mesh.region.dims.length := by rw [hCd.1, c4, hnd]; rfl
+  have hpairC : ∀ d, d < 3 → (rDimLast C (C.mesh.region.dims.getD d "")).bind C.vdimIndex = some d :=
+    fun d hd => pos_pairing C ["x", "y", "z"] m1 hvm (by decide) hCd.2 hll d hd
+  obtain ⟨cs, _⟩ := curl_shape_len hC
+  have wfC : MeshWf C := meshWf_of_mesh wf c4 (by rw [cs, c4]; exact wf.data_shape)
+  obtain ⟨RC, hRC⟩ := rot90_accepts_vector C a b a b ["x", "y", "z"] wfC (by rw [c4]; exact hsub) (by rw [c3]; omega) m1
+    (by rw [c3]; rfl) (by decide)
+    (by rw [hvm, List.map_fst_zip (by omega)]; exact List.isPerm_iff.mpr (List.Perm.refl _))
+    (by rw [hvm, List.length_zip, ← hll]; decide)
+    (by rw [c4]; exact ha') (by rw [c4]; exact hb') hab (hpairC a ha) (hpairC b hb)
+  exact ⟨R, C, CR, RC, hR, hC, hCR, hRC⟩
+
 /-! ## Non-vacuity: concrete fields that meet the hypotheses
 
 (`exS`, `exV`, `exMesh`, … are defined in `DFV/Lemmas/C05Examples.lean`) -/
@@ -1485,5 +1656,12 @@ example : (rDimLast exV (exV.mesh.region.dims.getD 0 "")).bind exV.vdimIndex = s
     subst this; decide
   · exact div_rot90_defined exV 0 1 1 2 ["p", "q", "r"] exσ exV_wf rfl (by decide) (by decide) (by decide)
       (by decide) rfl rfl rfl (by decide) (by decide) exV_σ (by decide) (by decide)
+
+/-- … and those of `curl_rot90_partial` for `exV` turned in the plane of axes 2, 0 -/
+example : ∃ R C CR RC, rot90Fld exV (exV.mesh.region.dims.getD 2 "") (exV.mesh.region.dims.getD 0 "") = .ok R ∧
+      curl exV = .ok C ∧ curl R = .ok CR ∧
+      rot90Fld C (C.mesh.region.dims.getD 2 "") (C.mesh.region.dims.getD 0 "") = .ok RC :=
+  curl_rot90_defined exV 2 0 ["p", "q", "r"] exσ exρ exV_wf rfl (by decide) (by decide) (by decide) rfl rfl rfl rfl
+    (by decide) (by decide) (fun c hc => exV_σ c hc) exV_ρ
 
 end DFV.C05
